@@ -265,7 +265,7 @@ class Interp:
             s.depth -= 1
         s.last_env[fn.key] = fst.env
         val = r[1] if (r and r[0] == "return") else None
-        if r and r[0] == "raise": val = Opaque("always raises")
+        if r and r[0] == "raise": val = AlwaysRaises("always raises")
         # fold guarded early returns into a decision tree
         for path, v in reversed(fst.early):
             for cond, pol in reversed(path):
@@ -293,6 +293,8 @@ class Interp:
             return None
         if isinstance(n, ast.Assign):
             v = s.eval(n.value, st)
+            if isinstance(v, AlwaysRaises) and not getattr(s, "try_depth", 0):
+                return ("raise",)          # the callee raises on every path: so does this statement (outside any try block)
             for t in n.targets: s.assign(t, v, st)
             return None
         if isinstance(n, ast.AnnAssign):
@@ -320,7 +322,9 @@ class Interp:
                     s.assign(it.optional_vars, Opaque("context manager"), st)
             return s.exec_block(n.body, st)
         if isinstance(n, ast.Try):
-            r = s.exec_block(n.body, st)
+            s.try_depth = getattr(s, "try_depth", 0) + (1 if n.handlers else 0)
+            try: r = s.exec_block(n.body, st)
+            finally: s.try_depth -= (1 if n.handlers else 0)
             if r is None and n.orelse: r = s.exec_block(n.orelse, st)
             if r is None and n.finalbody: r = s.exec_block(n.finalbody, st)
             return r
